@@ -33,11 +33,11 @@ PROPS = {
     'C06': dict(modules=['NutsProofs.Props.C06'], suites=[S('db-set', (60, 150), (1500, 200))]),
     'C07': dict(modules=['NutsProofs.Props.C07'], suites=[S('db-zset', (60, 150), (1500, 200)), S('zset-ds', (60, 300), (1500, 500))]),
     'C08': dict(modules=['NutsProofs.Props.C08'], suites=[S('db-mixed', (60, 200), (1500, 250)), S('db-list', (40, 200), (800, 250)), S('db-structs', (30, 200), (600, 250))]),
-    'C09': dict(modules=['NutsProofs.Props.C09'], suites=[S('db-crash', (40, 120), (800, 200)), S('db-kv', (30, 150), (500, 200))]),
+    'C09': dict(modules=['NutsProofs.Props.C09'], suites=[S('db-crash', (40, 120), (800, 200)), S('db-kv', (30, 150), (500, 200)), S('db-sparse', (40, 150), (600, 200))]),
     'C10': dict(modules=['NutsProofs.Props.C10'], suites=[S('db-crash', (50, 120), (1200, 200))]),
     'C11': dict(modules=['NutsProofs.Props.C11'], suites=[S('db-crash', (50, 120), (1200, 200)), S('db-mcrash', (40, 150), (800, 200))]),
     'C12': dict(modules=['NutsProofs.Props.C12'], suites=[S('db-mixed', (60, 150), (1500, 200))]),
-    'C13': dict(modules=['NutsProofs.Props.C13'], suites=[S('db-structs', (40, 150), (1000, 200)), S('db-list', (40, 150), (1000, 200))]),
+    'C13': dict(modules=['NutsProofs.Props.C13'], suites=[S('db-structs', (40, 150), (1000, 200)), S('db-list', (40, 150), (1000, 200)), S('db-kv', (30, 150), (500, 200))]),
     'C14': dict(modules=['NutsProofs.Props.C14'], suites=[],
                 conc=[dict(name='kv', quick='-profile kv -workers 8 -txs 25 -dbs 2 -mode 0', thorough='-profile kv -workers 16 -txs 60 -dbs 3 -mode 0', rounds=dict(quick=1, thorough=6)),
                       dict(name='kv-keyonly', quick='-profile kv -workers 8 -txs 25 -dbs 2 -mode 1', thorough='-profile kv -workers 16 -txs 60 -dbs 3 -mode 1', rounds=dict(quick=1, thorough=6)),
@@ -70,7 +70,8 @@ PROPS = {
                 assumptions=['panic-freedom is proved for the regenerated integer kernels (all machine integers) and for finished transactions in the model; panics the Go runtime can raise in code the model abstracts (nil maps/files, NaN ordering in the skiplist, regexp) are searched by the api-fuzz suite (a search, labelled as such), not proved',
                              'lists shorter than 2^62 elements']),
     'C21': dict(modules=['NutsProofs.Props.C21'],
-                suites=[S('codec', (4, 500), (40, 4000), env_thorough={'VERIF_CODEC_ALLBITS': '1'}, shards=10)],
+                suites=[S('codec', (4, 500), (40, 4000), env_thorough={'VERIF_CODEC_ALLBITS': '1'}, shards=10),
+                        S('db-sparse', (40, 150), (600, 200))],  # bucket metas and root-index records as Commit writes, rewrites and Open reads them
                 assumptions=['field values within their Go types (sizes < 2^32, ids and timestamps < 2^64); keys non-empty (tx.put rejects empty keys)',
                              'a flip inside a size field, and truncation, are enumerated against the implementation (tests), not proved: whether the CRC of the differently delimited string collides depends on the following bytes']),
     'C22': dict(modules=['NutsProofs.Props.C22'], suites=[S('modes', (250, 5), (4000, 5))],
